@@ -12,6 +12,7 @@ CONSTANTS Comp = "multi"
   NBuf = 1
   Gaps <- G_none
   Strict = FALSE
+  Busy = FALSE
   D = 80
 INIT Init
 NEXT Next
